@@ -41,6 +41,8 @@ def anchors():
 def gen_cases(tier, seed):
     r = gen.rng(seed, "c14")
     n = 60 if tier == "quick" else 6000
+    for i in range(20 if tier == "quick" else 600):
+        yield {"kind": "tplot_auto", "seed": r.randrange(1 << 30)}
     for kind in ("bet", "langmuir", "tplot", "alphas", "da", "betwindow"):
         for i in range(n):
             yield {"kind": kind, "seed": r.randrange(1 << 30), "window": i % 7 if kind == "langmuir" else i % 6}
@@ -518,6 +520,37 @@ def _run_alphas(case, ctx):
             _cmp(ctx, "alpha_s/raw/reference-array-reused/%s-call" % which_call, "area", rb[1][0][0]["area"], ref_area * scale)
         elif rb[0] != "ok":
             ctx.violation("alpha_s/raw/reference-array-reused/raises/%s" % type(rb[1]).__name__, "alpha-s with a reference array used before raised", exc=rb[1], call=which_call)
+
+
+def _run_tplot_auto(case, ctx):
+    """A microporous material recorded exactly on its two t-plot lines (steep filling line through the origin below the knee,
+    external-surface line above it), analysed without limits: among the sections the analysis reports is the external line
+    with the generating slope and intercept."""
+    from pygaps.characterisation.models_thickness import get_thickness_model
+    from pygaps.characterisation.t_plots import t_plot_raw
+    r = gen.rng(case["seed"], "tpa")
+    p = numpy.linspace(0.005, 0.95, r.choice([80, 100, 120]))
+    t = _thick("Harkins/Jura", p)
+    s1 = r.choice([10.0, 30.0, 60.0]) * r.uniform(0.9, 1.1)
+    s2 = r.uniform(1.0, 2.5)
+    knee = r.uniform(0.38, 0.45)
+    icpt = (s1 - s2) * knee
+    n = numpy.where(t < knee, s1 * t, s2 * t + icpt)
+    rho, M = 0.808, 28.0134
+    res = _call(t_plot_raw, n, p, get_thickness_model("Harkins/Jura"), rho, M)
+    ctx.case(["tplot-auto", case["seed"]])
+    ctx.count("tplot", "automatic-sections/steepness-%d" % (10 if s1 < 20 else 30 if s1 < 45 else 60))
+    if res[0] != "ok":
+        ctx.violation("t_plot_raw/automatic-sections/raises", "the analysis without limits raised on exact two-line data", exc=res[1])
+        return
+    results = res[1][0]
+    hit = [x for x in results if close(x["slope"], s2, 1e-6) and close(x["intercept"], icpt, 1e-6, 1e-9)]
+    if not hit:
+        ctx.violation("t_plot_raw/automatic-sections/external-line-not-reported", "none of the reported sections is the generating external line", s1=s1, s2=s2, intercept=icpt, knee=knee,
+                      reported=[[x["slope"], x["intercept"]] for x in results])
+        return
+    _cmp(ctx, "t_plot_raw/automatic-sections", "area", hit[-1]["area"], s2 * M / rho)
+    _cmp(ctx, "t_plot_raw/automatic-sections", "adsorbed_volume", hit[-1]["adsorbed_volume"], icpt * M / rho / 1000, 1e-6)
 
 
 # ------------------------------------------------------------------ Dubinin
